@@ -4,7 +4,7 @@ flatten structure. (DESIGN.md §4 C06)"""
 import re
 from .. import clone, copyrule, tables
 from ..facts import AnalysisBroken
-from ..flow import lvalue_key, is_assign
+from ..flow import lvalue_key, is_assign, _strip_casts
 
 EXPLANATION = ('R-COPY: every field of Polygon/Label/Reference/FlexPath(+Element)/RobustPath(+Element)/Curve/RaithData/Cell/Library '
                'is copied on every path of copy_from, owning fields through their copier; the hand-rolled filter copies in '
@@ -74,6 +74,22 @@ def check_copies(ctx, db):
         n += 1
         ctx.check(not missing, 'R-COPY', '%s/filter-branch-fields' % qn, var.loc(), 'filter-branch field-wise copy writes every field of %s' % rect,
                   'filter-branch field-wise copy of %s omits field(s) %s (copy_from copies them)' % (rect, missing))
+        # ... and each plain field copy takes the SAME field of the source path
+        dkey = 'v%d:%s' % (var.d, var.n)
+        crossed = []
+        for x in inner.walk():
+            if is_assign(x) and x.op == '=':
+                lk = lvalue_key(x.child('lhs'))
+                r0 = _strip_casts(x.child('rhs'))
+                if lk and lk.startswith(dkey + '->') and r0 is not None and r0.k == 'MemberExpr' and r0.arrow:
+                    b0 = _strip_casts(r0.child('base'))
+                    if b0.k == 'DeclRefExpr' and rect.split('::')[-1] in (b0.t or '') and lvalue_key(b0) != dkey:
+                        fl = lk[len(dkey) + 2:]
+                        if fl != r0.n:
+                            crossed.append((fl, r0.n, x))
+        n += 1
+        ctx.check(not crossed, 'R-COPY', '%s/filter-branch-same-field' % qn, (crossed[0][2] if crossed else var).loc(), 'every field of the filtered copy is taken from the same field of the source path',
+                  '; '.join('field `%s` of the filtered copy is filled from field `%s` of the source' % (a, b) for a, b, _ in crossed))
     ctx.require('R-COPY fields', n, 80)
 
 
